@@ -270,6 +270,7 @@ def check_or_defaults(ctx: Ctx, base: Optional[str], floor: int = 1) -> None:
         return bool(t) and t[0] == "prim" and t[1] in ("int", "float")
 
     ns = 0
+    clean = 0
     for g in ctx.program.all_functions():
         if g.cls is None or (g.name != "setup" and base is not None):
             continue
@@ -358,7 +359,8 @@ def check_or_defaults(ctx: Ctx, base: Optional[str], floor: int = 1) -> None:
                     bad += 1
                     ctx.violated(g, c, f"{g.qualname} takes configured numbers as given", "presence test (`k in settings` / `is not None`)", f"`{_ast.unparse(t)[:100]}` tests the truth value of {src}: a configured 0 counts as absent")
         if not bad:
-            ctx.holds(g, g.node, f"{g.qualname} takes configured numbers as given", "no `<settings read> or <default>` in a numeric place")
+            clean += 1
+    ctx.holds(None, None, f"configured numbers are taken as given by {('setup() of ' + base + ' classes') if base else 'every setup() and runner configuration reader'}", "no `<settings read> or <default>` and no truthiness test of a settings read in a numeric place", f"{clean} of {ns} functions examined have none")
     ctx.require(ns >= floor, "fewer setup(settings) implementations than confirmed by reading")
 
 
@@ -392,6 +394,7 @@ def check_identity_comparisons(ctx: Ctx, classes: Optional[List[str]], floor: in
         return isinstance(n, _ast.Constant) and (n.value is None or isinstance(n.value, bool) or n.value is Ellipsis)
 
     nf = 0
+    clean = 0
     for g in p.all_functions():
         if classes is not None:
             owner = g
@@ -418,5 +421,6 @@ def check_identity_comparisons(ctx: Ctx, classes: Optional[List[str]], floor: in
                         ctx.violated(g, n, f"{g.qualname}: values are compared by value", "`==` / `!=` (identity only for None, booleans and objects without value equality)", f"`{_ast.unparse(n)[:100]}` compares by identity a value of type {why}: equal values held in distinct objects are told apart")
                 left = right
         if not bad:
-            ctx.holds(g, g.node, f"{g.qualname}: values are compared by value", "no identity comparison of numbers, strings, tuples or instances of a class with __eq__")
+            clean += 1
+    ctx.holds(None, None, f"values are compared by value in {', '.join(classes) if classes else 'pams'}", "no identity comparison of numbers, strings, tuples or instances of a value class", f"{clean} of {nf} functions examined have none")
     ctx.require(nf >= floor, "fewer functions examined than confirmed by reading")
